@@ -347,8 +347,9 @@ var ambient = map[string]*typ{"runtime.GOOS": tString, "runtime.GOARCH": tString
 
 // a function that is not translated but taken as a parameter (it does I/O, or lives in another package)
 type opaqueFn struct {
-	params []*typ
-	result *typ
+	params   []*typ
+	result   *typ
+	variadic bool // the last parameter is ...T: the remaining arguments are passed as a list
 }
 
 // Name!os_Environ!runtime_GOOS on the command line keeps these as parameters of Name even if it stops reading them
@@ -775,6 +776,9 @@ func (t *tr) libcall(path, name string, x *ast.CallExpr) (string, *typ) {
 		a := t.args(x, tString, tString, tInt)
 		t.nonEmptyLit(x, 1)
 		return "(strings_SplitN " + a[0] + " " + a[1] + " " + a[2] + ")", tList(tString)
+	case "strconv.ParseBool":
+		a := t.args(x, tString)
+		return "(strconv_ParseBool " + a[0] + ")", &typ{kind: "tuple", elems: []*typ{tBool, tError}}
 	case "strings.EqualFold":
 		a := t.args(x, tString, tString)
 		return "(strings_EqualFold " + a[0] + " " + a[1] + ")", tBool // ASCII reading (Base/GoLib.v)
@@ -947,7 +951,35 @@ func (t *tr) callLocal(key string, fd *ast.FuncDecl, recv string, recvTy *typ, x
 }
 
 func (t *tr) callOpaque(name string, o *opaqueFn, x *ast.CallExpr) (string, *typ) {
-	a := t.args(x, o.params...)
+	var a []string
+	if o.variadic && !x.Ellipsis.IsValid() {
+		fixed := len(o.params) - 1
+		if len(x.Args) < fixed {
+			die("unsupported call %s", t.text(x))
+		}
+		head := *x
+		head.Args = x.Args[:fixed]
+		a = t.args(&head, o.params[:fixed]...)
+		var rest []string
+		for _, e := range x.Args[fixed:] {
+			c, ty := t.exprWant(e, o.params[fixed].elem)
+			if !ty.eq(o.params[fixed].elem) {
+				die("argument %s of %s has type %v", t.text(e), t.text(x), ty)
+			}
+			rest = append(rest, c)
+		}
+		if len(rest) == 0 {
+			a = append(a, t.zero(o.params[fixed]))
+		} else {
+			a = append(a, "["+strings.Join(rest, "; ")+"]%list")
+		}
+	} else if o.variadic {
+		plain := *x
+		plain.Ellipsis = token.NoPos
+		a = t.args(&plain, o.params...)
+	} else {
+		a = t.args(x, o.params...)
+	}
 	var ptys []string
 	for _, p := range o.params {
 		ptys = append(ptys, t.coqType(p))
@@ -1346,6 +1378,55 @@ func (t *tr) block(l []ast.Stmt, k func() string) string {
 		return out + rest()
 	case *ast.AssignStmt:
 		return t.assign(s) + rest()
+	case *ast.SwitchStmt:
+		// switch [init;] [tag] { case a, b: ... default: ... } without fallthrough = an if / else-if chain (the tag
+		// and the case expressions are pure; the tag is evaluated once in Go, any number of times here)
+		var chain ast.Stmt
+		var deflt *ast.BlockStmt
+		var clauses []*ast.CaseClause
+		for _, c := range s.Body.List {
+			cc := c.(*ast.CaseClause)
+			for _, b := range cc.Body {
+				if br, ok := b.(*ast.BranchStmt); ok && (br.Tok == token.FALLTHROUGH || br.Tok == token.BREAK) {
+					die("unsupported %s in a switch", br.Tok)
+				}
+			}
+			if cc.List == nil {
+				deflt = &ast.BlockStmt{List: cc.Body}
+				continue
+			}
+			clauses = append(clauses, cc)
+		}
+		if deflt != nil {
+			chain = deflt
+		}
+		for i := len(clauses) - 1; i >= 0; i-- {
+			var cond ast.Expr
+			for _, v := range clauses[i].List {
+				var one ast.Expr = v
+				if s.Tag != nil {
+					one = &ast.BinaryExpr{X: s.Tag, Op: token.EQL, Y: v}
+				}
+				if cond == nil {
+					cond = one
+				} else {
+					cond = &ast.BinaryExpr{X: cond, Op: token.LOR, Y: one}
+				}
+			}
+			chain = &ast.IfStmt{Cond: cond, Body: &ast.BlockStmt{List: clauses[i].Body}, Else: chain}
+		}
+		var list []ast.Stmt
+		if s.Init != nil {
+			list = append(list, s.Init)
+		}
+		switch c := chain.(type) {
+		case nil:
+		case *ast.BlockStmt: // only a default clause
+			list = append(list, c)
+		default:
+			list = append(list, c)
+		}
+		return t.block(list, t.inScope(t.snapshot(), rest))
 	case *ast.ExprStmt:
 		if id := sortStringsArg(s, t.imports); id != "" {
 			ty, ok := t.env[id]
@@ -1922,6 +2003,14 @@ func (t *tr) declareOpaque(spec string) {
 		}
 		if io[0] != "" {
 			for _, s := range strings.Split(io[0], ":") {
+				if strings.HasPrefix(s, "...") {
+					o.variadic = true
+					o.params = append(o.params, tList(basic(s[3:])))
+					continue
+				}
+				if o.variadic {
+					die("signature of %s: ...T must be the last parameter", name)
+				}
 				o.params = append(o.params, basic(s))
 			}
 		}
